@@ -10,8 +10,7 @@
     delivery with the PIT token and congestion mark of the completing frame.
 
   The numeric overhead constants come from `Gen/C10Consts.lean` (re-extracted from the working
-  tree on every run).  Go runtime failures of the receive path (index out of range, huge `make`) are
-  explicit outcomes.  Core Lean only.
+  tree on every run).  Core Lean only.
 -/
 import NdnVerif.C10.Wire
 import NdnVerif.Gen.C10Consts
@@ -122,26 +121,30 @@ structure Delivered where
 inductive RxOut
   | drop                          -- nothing delivered (error, IDLE, waiting for more fragments)
   | deliver (d : Delivered)
-  | panic (why : String)          -- Go runtime panic in reassemblePacket (index out of range)
-  | alloc (n : Nat)               -- `make([][]byte, fragCount)` with an absurd count
-  deriving Repr
+  deriving Repr, DecidableEq
 
-/-- allocation sizes above this are reported as `alloc` instead of being simulated -/
-def allocLimit : Nat := 1048576
+/-- `maxFragments`: largest FragCount accepted for reassembly (regenerated) -/
+abbrev maxFragments : Nat := Ndn.Gen.C10.maxFragments
 
-/-- `reassemblePacket`: new store and the reassembled payload when complete -/
-def reassemble (store : Store) (f : Frame) (base idx cnt : Nat) : Store × Option Bytes × Option RxOut :=
-  let slots := match store.find? base with
-    | some sl => some sl
-    | none => if cnt > allocLimit then none else some (List.replicate cnt [])
-  match slots with
-  | none => (store, none, some (.alloc cnt))
-  | some slots =>
-    if idx ≥ slots.length then (store.set base slots, none, some (.panic "index out of range"))
-    else
-      let slots := slots.set idx f.frag
-      if slots.all (fun s => s ≠ []) then (store.erase base, some slots.flatten, none)
-      else (store.set base slots, none, none)
+/-- the slot array `reassemblePacket` works on: the stored one (`none` when its size differs from
+    FragCount: the frame is dropped), or a fresh `make([][]byte, fragCount)` -/
+def slotsFor (store : Store) (base cnt : Nat) : Option (List Bytes) :=
+  match store.find? base with
+  | some sl => if sl.length = cnt then some sl else none
+  | none => some (List.replicate cnt [])
+
+/-- `reassemblePacket`: new store and the reassembled payload when complete.  FragIndex/FragCount
+    are validated first (`fragCount == 0 || fragCount > maxFragments || fragIndex >= fragCount`
+    → drop), so the slot index is always in range. -/
+def reassemble (store : Store) (f : Frame) (base idx cnt : Nat) : Store × Option Bytes :=
+  if cnt = 0 ∨ cnt > maxFragments ∨ idx ≥ cnt then (store, none)
+  else
+    match slotsFor store base cnt with
+    | none => (store, none)
+    | some slots =>
+      if (slots.set idx f.frag).all (fun s => s ≠ []) then
+        (store.erase base, some (slots.set idx f.frag).flatten)
+      else (store.set base (slots.set idx f.frag), none)
 
 /-- `handleIncomingFrame` after `spec.ReadPacket` produced an LpPacket `f` with a Fragment element.
     `reasm` = options.IsReassemblyEnabled;
@@ -158,9 +161,8 @@ def handleLp (reasm : Bool) (validL3 : Bytes → Bool) (store : Store) (f : Fram
       if idx = 0 ∧ cnt = 1 then finish store f.frag
       else
         match reassemble store f base idx cnt with
-        | (st', _, some bad) => (st', bad)
-        | (st', none, none) => (st', .drop)
-        | (st', some payload, none) => finish st' payload
+        | (st', none) => (st', .drop)
+        | (st', some payload) => finish st' payload
     else if f.cnt.isSome ∨ f.idx.isSome then (store, .drop)
     else finish store f.frag
 
